@@ -454,6 +454,39 @@ func installSpecials(in *Interp, p *Pkg) {
 	}
 	defMacro(p, "defun", 2, -1, def(FnFunction))
 	defMacro(p, "defmacro", 2, -1, def(FnMacro))
+
+	// get-default (docstring in lisp/macro.go): "Looks up key in a sorted-map,
+	// returning the associated value if found. If the key is not present,
+	// evaluates and returns default. The default expression is only evaluated
+	// when the key is missing (lazy evaluation)."  What decides is PRESENCE of
+	// the key - not the nil-ness or truthiness of the stored value.  The
+	// expansion is a call of a model-internal operator on the three argument
+	// forms, evaluated at the call site; the reference is silent about a first
+	// argument that is not a sorted-map and about unhashable keys (not judged).
+	getDefault := &V{K: KFun, Fn: &Fun{Name: "get-default", Kind: FnSpecial, Pkg: LangPkg, MinArgs: 3, MaxArgs: 3,
+		Special: func(in *Interp, env *Env, a []*V, form *V) (*V, *Err) {
+			m, e := in.Eval(env, a[0])
+			if e != nil {
+				return nil, e
+			}
+			k, e := in.Eval(env, a[1])
+			if e != nil {
+				return nil, e
+			}
+			if m.K != KMap {
+				return nil, in.unsure("get-default on a value that is not a sorted-map is not specified")
+			}
+			if k.K != KStr && k.K != KSym {
+				return nil, in.unsure("get-default with a key that is neither string nor symbol is not specified")
+			}
+			if ent, ok := m.M.E[k.S]; ok {
+				return ent.V, nil
+			}
+			return in.Eval(env, a[2])
+		}}}
+	defMacro(p, "get-default", 3, 3, func(in *Interp, env *Env, a []*V, form *V) (*V, *Err) {
+		return &V{K: KList, Src: form.Src, L: []*V{getDefault, a[0], a[1], a[2]}}, nil
+	})
 }
 
 // bindLocal implements LEnv.Put's rule for a local binding.
